@@ -157,7 +157,7 @@ def tlc(module, cfg=None, env=None, workers=1, timeout=600, extra=(), dfs=False,
     cmd = ["java", "-XX:+UseParallelGC", "-Xmx" + xmx]
     if dfs:
         cmd.append("-Dtlc2.tool.queue.IStateQueue=StateDeque")
-    cmd += ["-cp", TLA_CP, "tlc2.TLC", "-metadir", meta, "-workers", str(workers)]
+    cmd += ["-cp", TLA_CP, "tlc2.TLC", "-metadir", meta, "-workers", str(workers), "-noGenerateSpecTE"]
     if not deadlock:
         cmd.append("-deadlock")  # -deadlock disables deadlock checking
     if cfg:
